@@ -173,37 +173,121 @@ Qed.
 End Shapes.
 
 (* ---- identifier strictness ---- *)
-Lemma relaxed_ignores_spec_version_pf : forall s v v', check_uuid s v true = check_uuid s v' true.
+From Coq Require Import Lia.
+Open Scope N_scope.
+
+Lemma relaxed_ignores_spec_version_pf : forall im s v v', check_uuid im s v true = check_uuid im s v' true.
 Proof. reflexivity. Qed.
 
-Lemma strict_v20_implies_any_pf : forall s v, check_uuid s v20s false = UOk true -> check_uuid s v false = UOk true.
+Lemma strict_v20_implies_any_pf : forall im s v,
+  check_uuid im s v20s false = UOk true -> check_uuid im s v false = UOk true.
 Proof.
-  intros s v. unfold check_uuid. destruct (uuid_int s) as [[n|]|]; try discriminate.
+  intros im s v. unfold check_uuid. destruct (uuid_int s) as [[n|]|]; try discriminate.
+  destruct (canonical_text im && negb (ustr_eqb (canon_text n) (ustr_lower s))); [discriminate|].
   rewrite ustr_eqb_refl. destruct (variant_rfc4122 n); simpl; [|discriminate].
   intro H. destruct (ustr_eqb v v20s); [exact H|reflexivity].
 Qed.
 
 (* relaxed mode accepts exactly the 8-4-4-4-12 hexadecimal shape (whatever the bits say) *)
-Lemma relaxed_is_shape_pf : forall s v, check_uuid s v true = UOk (interop_match s).
-Proof. reflexivity. Qed.
+Lemma strict_subset_relaxed_pf : forall im s v,
+  interop_match im s = true -> check_uuid im s v false = UOk true -> check_uuid im s v true = UOk true.
+Proof. intros im s v Hm _. unfold check_uuid. rewrite Hm. reflexivity. Qed.
 
-Lemma strict_subset_relaxed_pf : forall s v,
-  interop_match s = true -> check_uuid s v false = UOk true -> check_uuid s v true = UOk true.
-Proof. intros s v Hm _. unfold check_uuid. rewrite Hm. reflexivity. Qed.
+(* -- with the canonical-text repair, strict acceptance implies the relaxed shape for EVERY text -- *)
+Ltac leb_cases :=
+  repeat match goal with
+         | |- context [?a <=? ?b] => destruct (N.leb_spec a b)
+         | |- context [?a <? ?b] => destruct (N.ltb_spec a b)
+         | |- context [?a =? ?b] => destruct (N.eqb_spec a b)
+         end.
+
+Lemma is_hex_lower_char : forall c, is_hex (lower_char c) = is_hex c.
+Proof.
+  intro c. unfold lower_char. destruct (N.leb_spec 65 c); destruct (N.leb_spec c 90); simpl;
+    unfold is_hex; leb_cases; simpl; try reflexivity; lia.
+Qed.
+
+Lemma lower_char_eqb : forall c k, (k <? 65) = true -> (lower_char c =? k) = (c =? k).
+Proof.
+  intros c k Hk. apply N.ltb_lt in Hk. unfold lower_char.
+  destruct (N.leb_spec 65 c); destruct (N.leb_spec c 90); simpl; leb_cases; try reflexivity; lia.
+Qed.
+
+Definition lo (s : ustring) : ustring := map lower_char s.
+
+Lemma take_hex_lo : forall k s, take_hex k (lo s) = option_map lo (take_hex k s).
+Proof.
+  induction k as [|k IH]; intro s; [reflexivity|]. destruct s as [|c r]; [reflexivity|].
+  cbn [take_hex lo map]. rewrite is_hex_lower_char. destruct (is_hex c); [apply IH|reflexivity].
+Qed.
+
+Lemma take_dash_lo : forall o, take_dash (option_map lo o) = option_map lo (take_dash o).
+Proof.
+  intros [[|c r]|]; try reflexivity. cbn [option_map lo map take_dash].
+  rewrite lower_char_eqb by reflexivity. destruct (c =? 45); reflexivity.
+Qed.
+
+Lemma obind_lo : forall o k, obind (option_map lo o) (take_hex k) = option_map lo (obind o (take_hex k)).
+Proof. intros [s|] k; [apply take_hex_lo|reflexivity]. Qed.
+
+Lemma interop_match_lower : forall im s, interop_match im (ustr_lower s) = interop_match im s.
+Proof.
+  intros im s. unfold interop_match. change (ustr_lower s) with (lo s).
+  rewrite take_hex_lo, !take_dash_lo, !obind_lo, !take_dash_lo, !obind_lo.
+  repeat (rewrite ?take_dash_lo, ?obind_lo).
+  match goal with |- context [option_map lo ?X] => destruct X as [[|c [|c' r]]|] end; try reflexivity.
+  cbn [option_map lo map]. rewrite lower_char_eqb by reflexivity. reflexivity.
+Qed.
+
+Lemma is_hex_digit : forall n k, is_hex (digit_at n k) = true.
+Proof.
+  intros n k. unfold digit_at. assert ((n / 16 ^ k) mod 16 < 16) as H by (apply N.mod_lt; discriminate).
+  revert H. generalize ((n / 16 ^ k) mod 16). intros d Hd. unfold hex_lower. destruct (N.ltb_spec d 10); unfold is_hex; leb_cases; simpl; try reflexivity; lia.
+Qed.
+
+Lemma interop_match_canon : forall im n, interop_match im (canon_text n) = true.
+Proof.
+  intros im n. unfold canon_text. cbn [map app]. unfold interop_match.
+  cbn [take_hex take_dash obind]. rewrite !is_hex_digit. cbn [take_hex take_dash obind N.eqb Pos.eqb].
+  rewrite !is_hex_digit. cbn [take_hex take_dash obind N.eqb Pos.eqb].
+  rewrite !is_hex_digit. cbn [take_hex take_dash obind N.eqb Pos.eqb].
+  rewrite !is_hex_digit. cbn [take_hex take_dash obind N.eqb Pos.eqb].
+  rewrite !is_hex_digit. reflexivity.
+Qed.
+
+Lemma ustr_eqb_eq : forall a b, ustr_eqb a b = true -> a = b.
+Proof.
+  induction a as [|x a IH]; destruct b as [|y b]; simpl; intro H; try discriminate; [reflexivity|].
+  apply andb_true_iff in H as [H1 H2]. apply N.eqb_eq in H1. rewrite H1, (IH b H2). reflexivity.
+Qed.
+
+Lemma strict_subset_relaxed_repaired_pf : forall im s v, canonical_text im = true ->
+  check_uuid im s v false = UOk true -> check_uuid im s v true = UOk true.
+Proof.
+  intros im s v Hc. unfold check_uuid. destruct (uuid_int s) as [[n|]|]; try discriminate.
+  rewrite Hc. destruct (ustr_eqb (canon_text n) (ustr_lower s)) eqn:He; cbn [negb andb]; [|intro H; discriminate H].
+  intros _. apply ustr_eqb_eq in He.
+  rewrite <- (interop_match_lower im s), <- He, interop_match_canon. reflexivity.
+Qed.
 
 Definition zero_uuid : ustring := u "00000000-0000-0000-0000-000000000000".
 Definition v1_uuid : ustring := u "c9bd2a4e-2b1c-1d3e-8f00-0123456789ab".
 Definition v4_uuid : ustring := u "c9bd2a4e-2b1c-4d3e-8f00-0123456789ab".
 Definition braced_uuid : ustring := u "{c9bd2a4e-2b1c-4d3e-8f00-0123456789ab}".
 
+Definition both_modes (P : idmode -> Prop) : Prop := P pinned_idmode /\ P repaired_idmode.
+
 Lemma strictness_witnesses_pf :
   (* relaxed mode admits an id no version admits in strict mode *)
-  (check_uuid zero_uuid v20s true = UOk true /\ check_uuid zero_uuid v20s false = UOk false
-   /\ check_uuid zero_uuid v21 true = UOk true /\ check_uuid zero_uuid v21 false = UOk false)
+  both_modes (fun im =>
+    check_uuid im zero_uuid v20s true = UOk true /\ check_uuid im zero_uuid v20s false = UOk false
+    /\ check_uuid im zero_uuid v21 true = UOk true /\ check_uuid im zero_uuid v21 false = UOk false)
   (* 2.1 admits an id 2.0 does not *)
-  /\ (check_uuid v1_uuid v21 false = UOk true /\ check_uuid v1_uuid v20s false = UOk false)
+  /\ both_modes (fun im => check_uuid im v1_uuid v21 false = UOk true /\ check_uuid im v1_uuid v20s false = UOk false)
   (* a version-4 id is fine everywhere *)
-  /\ (check_uuid v4_uuid v20s false = UOk true /\ check_uuid v4_uuid v21 false = UOk true /\ check_uuid v4_uuid v21 true = UOk true)
-  (* outside the canonical shape strict mode (uuid.UUID) is the laxer one *)
-  /\ (check_uuid braced_uuid v21 false = UOk true /\ check_uuid braced_uuid v21 true = UOk false).
+  /\ both_modes (fun im => check_uuid im v4_uuid v20s false = UOk true /\ check_uuid im v4_uuid v21 false = UOk true
+                           /\ check_uuid im v4_uuid v21 true = UOk true)
+  (* before the canonical-text repair, strict mode (uuid.UUID) was the laxer one outside the canonical shape *)
+  /\ (check_uuid pinned_idmode braced_uuid v21 false = UOk true /\ check_uuid pinned_idmode braced_uuid v21 true = UOk false
+      /\ check_uuid repaired_idmode braced_uuid v21 false = UOk false).
 Proof. vm_compute. repeat split. Qed.
